@@ -1287,6 +1287,48 @@ fn run_inner(ctx: &mut Ctx) {
         }
     }
 
+    // ---- family W: line ends placed around the 512-octet windows of the canonicalising reader ---------
+    // (first line of 505..=516 and 1017..=1028 octets, each line-end style, followed by short or further long
+    // lines; the canonical CR LF form then has its CR / LF on either side of every window edge)
+    {
+        let ends: [&str; 4] = ["\n", "\r\n", "\r", "\r\r\n"];
+        let mut wi = 0u64;
+        for base in [512usize, 1024, 1536] {
+            for d in -7i64..=4 {
+                for (ei, e) in ends.iter().enumerate() {
+                    for tail in 0..3usize {
+                        wi += 1;
+                        if !ctx.mine() {
+                            continue;
+                        }
+                        let l = (base as i64 + d) as usize;
+                        let mut t = String::with_capacity(l + 600);
+                        for k in 0..l {
+                            t.push((b'a' + (k % 26) as u8) as char);
+                        }
+                        t.push_str(e);
+                        match tail {
+                            0 => t.push_str("end"),
+                            1 => {
+                                // a second long line so that later edges are hit with shifted alignment
+                                for k in 0..(509 + ei) {
+                                    t.push((b'A' + (k % 26) as u8) as char);
+                                }
+                                t.push_str(e);
+                                t.push_str("- dash\n");
+                            }
+                            _ => {}
+                        }
+                        describe_case(&format!("C16 W first line {l} end {ei} tail {tail}"));
+                        let cfg = (wi % ncfg as u64) as usize;
+                        let o = Opt { dry: wi % 4 != 0, edit_positions: 4, api_variants: wi % 8 == 0, cover: true };
+                        check_text(ctx, &env, "W", &t, cfg, o);
+                    }
+                }
+            }
+        }
+    }
+
     // ---- family B: larger random texts (0..8 lines, mixed line endings), both modes -------------
     let ngroups = ctx.qt(600u64, 10_000u64);
     for g in 0..ngroups {
